@@ -257,7 +257,14 @@ func initStubs() {
 			return ret(st, e.nondet(nondetName(e, st, args), mkSort(e), goTy))
 		}
 	}
-	bv := func(w int) func(*Exec) Sort { return func(*Exec) Sort { return BV(w) } }
+	bv := func(w int) func(*Exec) Sort {
+		return func(*Exec) Sort {
+			if mathInts {
+				return IntSort
+			}
+			return BV(w)
+		}
+	}
 	stubTable[zzp+"Bool"] = nd("bool", func(*Exec) Sort { return BoolSort })
 	stubTable[zzp+"Int"] = nd("int", bv(64))
 	stubTable[zzp+"Int64"] = nd("int64", bv(64))
@@ -323,7 +330,11 @@ func initStubs() {
 		if !ok {
 			fail("Choice bound must be concrete")
 		}
-		v := e.nondet(name, BV(64), "int")
+		cs := BV(64)
+		if mathInts {
+			cs = IntSort
+		}
+		v := e.nondet(name, cs, "int")
 		var outs []Outcome
 		for i := int64(0); i < n; i++ {
 			c := Eq(v, BVConst(uint64(i), 64))
